@@ -578,7 +578,7 @@ def run(ck: common.Check):
     cases = list(corpus())
     cases += single_op_cases()
     cat = mc.catalogue()
-    nrand = 2500 if ck.quick else 50000
+    nrand = 2500 if ck.quick else 30000
     for _ in range(nrand):
         cases.append(random_history(ck.rng, cat, ck.rng.randint(1, 8)))
     ck.extra["exhaustive_single_ops"] = len(cases) - nrand
